@@ -2,7 +2,7 @@
    This is what the OCaml driver calls; each command evaluates model functions on a case that the
    Python harness also runs on the rebuilt implementation. *)
 From OptreeModel Require Export Wire Flatten Unflatten Spec Ops Registry Pickle Accessor.
-From OptreeModel Require Ravel Dataclass Typing Faults Depth.
+From OptreeModel Require Ravel Dataclass Typing Faults Depth Alias.
 
 Definition bad : sexp := SL [SI 2].   (* undecodable input: a harness error, never a verdict *)
 
@@ -305,6 +305,36 @@ Definition cmd_depth (c : cfg) (o : obj) : sexp :=
   SL [enc_nat (Depth.vdepth c o); enc_bool (Depth.clean c o); enc_bool (wf_obj o);
       enc_bool (Nat.leb (Depth.vdepth c o) (S (c_limit c)))].
 
+(* cmd 18: which references each node of the treespec owns, and which the GC traversal reports *)
+Definition enc_slots (l : list Alias.slot) : sexp :=
+  SL (map (fun s => SI match s with Alias.SData => 0 | Alias.SEntries => 1 | Alias.SOrig => 2 end) l).
+Definition cmd_gc (c : cfg) (o : obj) : sexp :=
+  match flatten c o with
+  | Err e => enc_err e
+  | Ok (_, sp) => SL [SI 0; SL (map enc_slots (Alias.spec_owned sp));
+                      SL (map enc_slots (Alias.spec_visited Alias.GcAll sp))]
+  end.
+
+(* cmd 19: a user program mutating every list it can reach around one dict treespec *)
+Definition dec_aop (s : sexp) : option Alias.aop :=
+  match s with
+  | SL [SI 0; SI n; ks] => omap (fun k => Alias.AMutate (Z.to_nat n) k) (dec_list dec_key ks)
+  | SL [SI 1] => Some Alias.AEntries
+  | _ => None
+  end.
+Definition enc_okeys (o : option (list key)) : sexp :=
+  match o with Some ks => SL [SI 0; enc_keys ks] | None => SL [SI 1] end.
+Definition cmd_alias (ks : list key) (p : list Alias.aop) : sexp :=
+  let h0 := {| Alias.cells := [(0%nat, ks)]; Alias.next := 1%nat |} in
+  match Alias.flatten_dict true h0 0%nat with
+  | None => bad
+  | Some (h1, s) =>
+    let obs u := let '(a, b) := Alias.observe (Alias.u_heap u) s in SL [enc_okeys a; enc_okeys b] in
+    let u0 := {| Alias.u_heap := h1; Alias.u_held := [0%nat] |} in
+    SL (obs u0 ::
+        snd (fold_left (fun '(u, acc) o => let u' := Alias.astep true s u o in (u', acc ++ [obs u'])) p (u0, [])))
+  end.
+
 Definition run (s : sexp) : sexp :=
   match s with
   | SL [SI 1; c; o] =>
@@ -386,6 +416,16 @@ Definition run (s : sexp) : sexp :=
   | SL [SI 16; SI 1; SL script; SL data] =>
     match omapM dec_mut script, omapM dec_zpair data with
     | Some sc, Some d => cmd_mut_dict sc d
+    | _, _ => bad
+    end
+  | SL [SI 18; c; o] =>
+    match dec_cfg c, dec_obj o with
+    | Some c', Some o' => cmd_gc c' o'
+    | _, _ => bad
+    end
+  | SL [SI 19; ks; SL ops] =>
+    match dec_list dec_key ks, omapM dec_aop ops with
+    | Some ks', Some p => cmd_alias ks' p
     | _, _ => bad
     end
   | SL [SI 17; c; o] =>
